@@ -194,7 +194,7 @@ theorem sync_sound (code : Code) : ∀ (fuel : Nat) (ex : List Nat) (f : Fiber) 
 /-- configurations the abstract machine can be in: fiber state and mode after `bm` matched bytes -/
 inductive Reach (e : Env) : Fiber → Mode → Nat → Prop
   | start : Reach e { ip := e.entry } .run 0
-  | scanStart (bm : Nat) : e.fl.scan = true → Reach e { ip := e.entry } .run bm
+  | scanStart (bm : Nat) : e.fl.scan = true → bm ≤ e.maxBytes → Reach e { ip := e.entry } .run bm
   | sync {f g m m' bm} : Reach e f m bm → m ≠ .wait → SStar e.code f g m' → Reach e g m' bm
   | zw {f bm} : Reach e f .run bm → isConsuming (u8 e.code f.ip) = false → u8 e.code f.ip ≠ OP_MATCH →
       zeroWidthOk e bm (u8 e.code f.ip) = true → Reach e { f with ip := f.ip + 1 } .run bm
@@ -223,13 +223,13 @@ theorem stopped_append {e : Env} {bm : Nat} {l1 l2 : List Fiber} (h1 : Stopped e
   · exact h1 x h
   · exact h2 x h
 
-theorem pass_sound (e : Env) (bm : Nat) : ∀ (fuel : Nat) (todo : List Fiber) (st res : PassSt) (ub : Bool),
-    pass e bm fuel todo st = some (res, ub) → Stopped e bm todo → Stopped e (bm + e.cs) st.kept →
+theorem pass_sound (e : Env) (bm : Nat) : ∀ (fuel : Nat) (todo : List Fiber) (st res : PassSt),
+    pass e bm fuel todo st = some res → Stopped e bm todo → Stopped e (bm + e.cs) st.kept →
     Good e st.mval st.calls → Stopped e (bm + e.cs) res.kept ∧ Good e res.mval res.calls
-  | 0, _, _, _, _, h, _, _, _ => by simp [pass] at h
-  | fuel+1, [], st, res, ub, h, _, hk, hg => by
-    simp [pass] at h; obtain ⟨rfl, _⟩ := h; exact ⟨hk, hg⟩
-  | fuel+1, f :: rest, st, res, ub, h, ht, hk, hg => by
+  | 0, _, _, _, h, _, _, _ => by simp [pass] at h
+  | fuel+1, [], st, res, h, _, hk, hg => by
+    simp [pass] at h; subst h; exact ⟨hk, hg⟩
+  | fuel+1, f :: rest, st, res, h, ht, hk, hg => by
     obtain ⟨m, hf, hmode⟩ := ht f List.mem_cons_self
     have hrest : Stopped e bm rest := fun x hx => ht x (List.mem_cons_of_mem _ hx)
     unfold pass at h
@@ -241,12 +241,12 @@ theorem pass_sound (e : Env) (bm : Nat) : ∀ (fuel : Nat) (todo : List Fiber) (
         split at h
         · simp at h
         · rename_i l a ex hs
-          apply pass_sound e bm fuel rest _ res ub h hrest _ hg
+          apply pass_sound e bm fuel rest _ res h hrest _ hg
           have hc := Reach.cons hf hcons hok (fun ha => hmode.1.2 ha) hmode.2
           have hne : (if u8 e.code f.ip = OP_REPEAT_ANY_GREEDY ∨ u8 e.code f.ip = OP_REPEAT_ANY_UNGREEDY then Mode.post else Mode.run) ≠ Mode.wait := by
             split <;> simp
           exact stopped_append hk (stopped_of_sync hc hne hs)
-      · exact pass_sound e bm fuel rest st res ub h hrest hk hg
+      · exact pass_sound e bm fuel rest st res h hrest hk hg
     · rename_i hncons
       split at h
       · rename_i hm
@@ -258,8 +258,8 @@ theorem pass_sound (e : Env) (bm : Nat) : ∀ (fuel : Nat) (todo : List Fiber) (
             · simp at h1; subst h1; exact ⟨f, m, hf, hm⟩
           · intro _; exact ⟨f, m, by simpa using hf, hm⟩
         split at h
-        · exact pass_sound e bm fuel rest _ res ub h hrest hk hgood
-        · simp at h; obtain ⟨rfl, _⟩ := h
+        · exact pass_sound e bm fuel rest _ res h hrest hk hgood
+        · simp at h; subst h
           refine ⟨hk, ?_⟩
           constructor
           · exact hg.1
@@ -282,11 +282,9 @@ theorem pass_sound (e : Env) (bm : Nat) : ∀ (fuel : Nat) (todo : List Fiber) (
               | wait => exact absurd (hmode.1.1 rfl) hnany
               | post => exact absurd rfl hmode.2
             subst hrun
-            split at h
-            · apply pass_sound e bm fuel (l ++ rest) st res ub h _ hk hg
-              exact stopped_append (stopped_of_sync (Reach.zw hf (by simpa using hncons) hnm hz) (by simp) hs) hrest
-            · simp at h; obtain ⟨rfl, _⟩ := h; exact ⟨hk, hg⟩
-        · exact pass_sound e bm fuel rest st res ub h hrest hk hg
+            apply pass_sound e bm fuel (l ++ rest) st res h _ hk hg
+            exact stopped_append (stopped_of_sync (Reach.zw hf (by simpa using hncons) hnm hz) (by simp) hs) hrest
+        · exact pass_sound e bm fuel rest st res h hrest hk hg
 
 theorem mem_dedup {x : Fiber} : ∀ (l acc : List Fiber), x ∈ dedup l acc → x ∈ l ∨ x ∈ acc
   | [], acc, h => by simp [dedup] at h; exact .inr h
@@ -313,23 +311,22 @@ theorem loop_sound (e : Env) : ∀ (fuel : Nat) (fibers : List Fiber) (bm : Nat)
       · simp at h
       split at h
       · simp at h
-      · simp at h
       · rename_i st hp
         have hded : Stopped e bm (dedup fibers []) := by
           intro f hf
           rcases mem_dedup fibers [] hf with h1 | h1
           · exact hr f h1
           · simp at h1
-        obtain ⟨hk, hg'⟩ := pass_sound e bm 4000 (dedup fibers []) _ st false hp hded (by intro x hx; simp at hx) hg
+        obtain ⟨hk, hg'⟩ := pass_sound e bm 4000 (dedup fibers []) _ st hp hded (by intro x hx; simp at hx) hg
         simp only at h
-        by_cases hscan : (e.fl.scan && decide (bm + e.cs < e.maxBytes)) = true
+        by_cases hscan : (e.fl.scan && decide (bm + e.cs ≤ e.maxBytes)) = true
         · rw [if_pos hscan] at h
           split at h
           · simp at h
           · rename_i l a ex hs
             apply loop_sound e fuel _ _ _ _ m c h _ hg'
-            simp only [Bool.and_eq_true] at hscan
-            exact stopped_append hk (stopped_of_sync (Reach.scanStart (bm + e.cs) hscan.1) (by simp) hs)
+            simp only [Bool.and_eq_true, decide_eq_true_eq] at hscan
+            exact stopped_append hk (stopped_of_sync (Reach.scanStart (bm + e.cs) hscan.1 hscan.2) (by simp) hs)
         · rw [if_neg hscan] at h
           exact loop_sound e fuel _ _ _ _ m c h hk hg'
 
